@@ -30,6 +30,9 @@ struct SchedConfig {
   uint32_t disabled_kinds = 0;   // bitmask of YieldKind that do not yield this run
   std::vector<int> schedule;     // CH_EXPLICIT: task id per step (mod runnable set)
   int step_cap = 200000;
+  bool store_buffer = false;     // TSan build: atomic stores weaker than seq_cst go through a per-task FIFO store buffer (x86-TSO) instead of
+  double sb_retain = 0.6;        // becoming visible at once; (unused since the TTL model, kept for old replay files)
+  int sb_ttl_max = 32;           // every buffered store drains after a random number (0..sb_ttl_max) of its task's later yield points, in order
   int exit_at_step = -1;         // >= 0: at that step the process "exits" - the library's static destructors run (on the main context) while the tasks carry on
   bool explicit_default_first = false;  // CH_EXPLICIT: after the list ends pick the lowest runnable id (for enumeration)
 };
@@ -47,6 +50,7 @@ struct SchedResult {
   int contended_locks = 0;       // times a task found the mutex held
   int cond_waits = 0, cond_timeouts = 0;  // condition-variable waits entered / timed waits that were let expire
   int switches = 0;              // steps where the chosen task differs from the previous one
+  int sb_buffered = 0, sb_forwarded = 0;   // stores that went through a store buffer / loads served from the task's own buffer
   int exit_handlers_run = 0;     // static destructors of the library that were run by the simulated exit
   int tls_blocks = 0;            // per-task instances of thread_local objects created (emulated TLS)
 };
@@ -57,6 +61,7 @@ SchedResult run_tasks(const std::vector<std::function<void()>>& bodies, const Sc
 // Called from seams.  No-ops outside a task.
 void yield(YieldKind k);
 bool in_task();
+bool in_library_scope();   // inside a task AND inside library code (not in a seam that re-entered the harness)
 int cur_task();          // -1 outside a task
 uint64_t global_seq();   // global event sequence number (monotone within a run)
 uint64_t next_seq();     // allocate one (used by event logging)
